@@ -31,7 +31,9 @@ func verifTextLiteral(lit string) *gen.TextLiteralContext {
 }
 
 // verifLexTEXT is the TEXT lexer rule of antlr/Excellent3.g4,
-//     TEXT: '"' (~["] | '\\"')* '"';
+//
+//	TEXT: '"' (~["] | '\\"')* '"';
+//
 // as a longest-match recogniser: it returns the length of the longest prefix
 // of s that the rule matches, or -1.  (Validated against the generated lexer
 // by the self-test.)
